@@ -78,6 +78,18 @@ class DCall:
     a: int
     def __call__(self):
         return 1
+def _make_local():
+    # classes created inside a function: their qualified name ('_make_local.<locals>.LPlain') cannot be resolved from the module
+    class LPlain:
+        def __init__(self, a=1):
+            self.a = a
+    @dataclasses.dataclass
+    class LDC:
+        a: int = 0
+    class LBox(typing.Generic[T]):
+        pass
+    return LPlain, LDC, LBox
+LPlain, LDC, LBox = _make_local()
 @dataclasses.dataclass
 class FinalFree(typing.Generic[T]):
     item: typing.Final[T]
@@ -99,7 +111,9 @@ LEAVES = ["int", "str", "typing.Any", "object", "list", "dict", "tuple", "set", 
           "typing.Literal[1, 'a']", "datetime.datetime", "decimal.Decimal", "GD", "GD[str]", "CV", "DCall", "re.Pattern[str]", "re.Pattern",
           "IntList", "Tags", "Handlers", "IntBox", "MaybeDC", "DCId", "Pair", "Triple", "Pair[int, str]",
           # a TypeVar reached through a qualifier on a field of a user generic
-          "FinalFree", "FinalBound", "FinalCn", "CVBound", "FinalFree[int]"]
+          "FinalFree", "FinalBound", "FinalCn", "CVBound", "FinalFree[int]",
+          # function-local classes (used once here, twice in the `reuse` family)
+          "LPlain", "LDC", "LBox"]
 UNARY = ["list[{0}]", "typing.List[{0}]", "tuple[{0}, ...]", "dict[str, {0}]", "typing.Optional[{0}]", "typing.Sequence[{0}]",
          "collections.abc.Mapping[str, {0}]", "frozenset[{0}]", "G[{0}]"]
 BINARY = ["tuple[{0}, {1}]", "typing.Union[{0}, {1}]", "dict[{0}, {1}]"]
